@@ -138,6 +138,9 @@ func (t *StreamUnderlay) Close() error {
 	// Unblock any pending I/O before closing sessions.
 	t.conn.SetDeadline(time.Now())
 	t.baseUnderlay.Close()
+	// Closing sessions takes time. The event loop may have started a new
+	// read with a new deadline before it can see that the underlay is done.
+	t.conn.SetDeadline(time.Now())
 	return nil
 }
 
